@@ -27,8 +27,31 @@ def worker(case):
     s = core.sdn()
     HRef = s.HRef
     key = _hier.key_of(case, n)
-    e = elab.Elab(n)
     tag = case[0][0]
+    nq = 0
+    spans = judge(n, s, tag, probs, "")
+    nq += spans[1]
+    if len(case) > 2 and case[2] == "edited":
+        # not from the initial state: a connection is taken away, everything is asked again; it is put on
+        # another wire, everything is asked again (answers must follow the netlist, not an earlier trace)
+        top = n.top_instance.reference
+        cands = [(w_, p_) for d_ in [top] + [x.reference for x in top.children if x.reference is not None and x.reference.cables]
+                 for c_ in d_.cables for w_ in c_.wires for p_ in list(w_.pins)[:1]]
+        if cands:
+            w_, p_ = cands[-1]
+            w_.disconnect_pin(p_)
+            nq += judge(n, s, tag, probs, ":after-disconnect")[1]
+            other = next((x for c_ in w_.cable.definition.cables for x in c_.wires if x is not w_), None)
+            if other is not None:
+                other.connect_pin(p_)
+                nq += judge(n, s, tag, probs, ":after-reconnect")[1]
+    return {"key": key, "nontrivial": spans[0], "outcome": "ok", "problems": list(dict.fromkeys(probs)), "transitions": nq}
+
+
+def judge(n, s, tag, probs, phase):
+    """every start of the design against the independent elaboration; returns (net spans levels, queries made)."""
+    HRef = s.HRef
+    e = elab.Elab(n)
     nq = 0
 
     def hw(path, w):
@@ -47,13 +70,13 @@ def worker(case):
         try:
             got = [chain(h) for h in fn(root, **kw)]
         except Exception as ex:
-            probs.append(("query-raised:%s:%s" % (what, type(ex).__name__), repr(ex)))
+            probs.append(("query-raised:%s:%s" % (what + phase, type(ex).__name__), repr(ex)))
             return
         if len(got) != len(set(got)):
-            probs.append(("duplicate-result:" + what, "%d results, %d distinct" % (len(got), len(set(got)))))
+            probs.append(("duplicate-result:" + what + phase, "%d results, %d distinct" % (len(got), len(set(got)))))
         if set(got) != set(expect):
             kind = "missing" if set(expect) - set(got) else "extra"
-            probs.append(("%s:%s" % (kind, what), "%s: expected %d got %d (missing %d, extra %d)"
+            probs.append(("%s:%s" % (kind, what + phase), "%s: expected %d got %d (missing %d, extra %d)"
                           % (tag, len(set(expect)), len(set(got)), len(set(expect) - set(got)), len(set(got) - set(expect)))))
 
     ALL, INSIDE, OUTSIDE, BOTH = s.ALL, s.INSIDE, s.OUTSIDE, s.BOTH
@@ -74,6 +97,10 @@ def worker(case):
             else:
                 exp.add(tuple(id(x) for x in path) + (id(p.port), id(p)))
         ask(s.get_hpins, href, "get_hpins(hwire)", exp)
+        # the start given as a one-shot iterator (the natural composition get_hpins(get_hwires(...)))
+        ask(s.get_hpins, (x for x in [href]), "get_hpins(generator)", exp)
+        ask(s.get_hwires, (x for x in [href]), "get_hwires(generator,ALL)", cls_of[me], selection=ALL)
+        ask(s.get_hcables, (x for x in [href]), "get_hcables(generator,ALL)", set(x[:-1] for x in cls_of[me]), selection=ALL)
     # element roots: every occurrence of the wire
     for wid, (w, union) in by_wire.items():
         ask(s.get_hwires, w, "get_hwires(wire,ALL)", union, selection=ALL)
@@ -119,14 +146,19 @@ def worker(case):
                 pexp |= allexp
             ask(s.get_hwires, HRef.from_sequence(list(path) + [port]), "get_hwires(hport,ALL)", pexp, selection=ALL)
             ask(s.get_hcables, HRef.from_sequence(list(path) + [port]), "get_hcables(hport,ALL)", set(x[:-1] for x in pexp), selection=ALL)
-    return {"key": key, "nontrivial": spans, "outcome": "ok", "problems": probs, "transitions": nq}
+    return spans, nq
 
 
 engine_b.WORKERS[ID] = worker
 
 
 def cases(tier):
-    return [(desc, order) for desc in design.family_hier(tier, variants=("plain", "dangling-nets")) for order in core.ORDER_VARIANTS]
+    out = []
+    for desc in design.family_hier(tier, variants=("plain",)):
+        if tier == "thorough" or desc[0] in ("K1-chain2", "K8-bus") or sum(desc[1]) % 9 == 0:
+            out.append((desc, "asc", "edited"))
+    out += [(desc, order) for desc in design.family_hier(tier, variants=("plain", "dangling-nets")) for order in core.ORDER_VARIANTS]
+    return out
 
 
 def run(tier, seed):
@@ -136,7 +168,7 @@ def run(tier, seed):
         "independent union-find elaboration; transitions = queries evaluated; states = distinct designs; non-trivial = "
         "designs in which some net spans more than one hierarchy level")
     found = {}
-    deadline = time.time() + (200 if tier == "quick" else 3000)
+    deadline = time.time() + (900 if tier == "quick" else 6000)
     cs = cases(tier)
     k = seed % 7
     engine_b.run_cases(ID, cs[k:] + cs[:k], cov, found, deadline, level="F_hier/" + tier)
